@@ -5098,7 +5098,8 @@ class Frame(ContainerOperand):
                 row_shift=shift_index,
                 column_shift=shift_column,
                 wrap=True
-                ))
+                ),
+                shape_reference=self._blocks._shape)
 
         if include_index:
             index = self._index.roll(shift_index)
@@ -5141,7 +5142,8 @@ class Frame(ContainerOperand):
                 column_shift=shift_column,
                 wrap=False,
                 fill_value=fill_value
-                ))
+                ),
+                shape_reference=self._blocks._shape)
 
         return self.__class__(blocks,
                 columns=self._columns,
